@@ -325,6 +325,21 @@ pub fn judge(c: &Case15) -> Vec<(String, String)> {
                             v.push(("read-xml/swapped-order".to_owned(), Err("harness: could not swap XML properties".into())));
                         }
                     }
+                    // a legacy ContentId may also arrive in the newer element form (docs/xml.md, Content:
+                    // child `uri`), e.g. from a writer that has already switched element types
+                    let open = format!("<ContentId name=\"{}\">", c.legacy);
+                    if let Some(a) = text.find(&open) {
+                        if let Some(len) = text[a..].find("</ContentId>") {
+                            let inner = &text[a + open.len()..a + len];
+                            let uri = match (inner.find("<url>"), inner.find("</url>")) {
+                                (Some(x), Some(y)) if y >= x + 5 => inner[x + 5..y].to_owned(),
+                                _ => String::new(),
+                            };
+                            let repl = format!("<Content name=\"{}\"><uri>{}</uri></Content>", c.legacy, uri);
+                            let f = format!("{}{}{}", &text[..a], repl, &text[a + len + "</ContentId>".len()..]);
+                            files.push(("content-element".to_owned(), f));
+                        }
+                    }
                     for (ord, f) in files {
                         let r = rbx_xml::from_str_default(&f).map_err(|e| format!("decode: {}", e)).and_then(|d| props_of(&d));
                         v.push((format!("read-xml/{}", ord), r));
